@@ -167,17 +167,17 @@ def substE (m : List (String × Expr)) : Expr → Expr
   | .unsupported => .unsupported
 
 /-- `MappingPulseTemplate.__init__` on complete mappings ("avoid nested mappings"): an unnamed mapping template
-as the mapped template is merged with the new one — its parameter expressions are rewritten by the new parameter
-mapping, its measurement and channel targets are looked up in the new mappings (a channel the inner template
-drops makes the lookup `channel_mapping[None]` raise: `none`), and its parameter constraints are NOT carried
-over.  `none` = the constructor raises. -/
+without parameter constraints (PF-30 repaired) as the mapped template is merged with the new one — its parameter
+expressions are rewritten by the new parameter mapping, its measurement and channel targets are looked up in the
+new mappings; a channel the inner template drops stays dropped (PF-29 repaired).  `none` = the constructor
+raises (a target that the new mapping does not know). -/
 def mkMapping (id : Option String) (pt : PT) (pm : List (String × Expr)) (mm : List (MName × MName))
     (cm : List (Chan × Option Chan)) (cons : List Expr) : Option PT :=
   match pt with
-  | .mapping none body pm' mm' cm' _ => do
+  | .mapping none body pm' mm' cm' [] => do
       let mm'' ← mm'.mapM (fun (k, v) => (mm.lookup v).map (fun r => (k, r)))
       let cm'' ← cm'.mapM (fun (k, v) => match v with
-        | none => none
+        | none => some (k, none)
         | some o => (cm.lookup o).map (fun r => (k, r)))
       some (.mapping id body (pm'.map (fun (p, e) => (p, substE pm e))) mm'' cm'' cons)
   | p => some (.mapping id p pm mm cm cons)
